@@ -9,12 +9,12 @@ package raft
 // Log.Reset (T-abs view): the log becomes empty at lastIndex
 // gfault: a storage primitive has reported an error (the node is about to stop: C10/C15 premise)
 //@ ghost var gfault bool
-//@ view (*log.Log).Reset
+//@ view (*log.Log).Reset params(l, lastIndex)
 //@   modifies l.gprev, l.glast, gfault
 //@   ensures result0 == nil ==> l.gprev == lastIndex && l.glast == lastIndex && gfault == old(gfault)
 //@   ensures result0 != nil ==> gfault
 
-//@ func (*storage).clearLog
+//@ func (*storage).clearLog params(s)
 //@   requires s.log != nil && s.snaps != nil
 //@   modifies s.lastLogIndex, s.lastLogTerm, s.flushed, s.log.gprev, s.log.glast, gfault
 //@   ensures result0 != nil ==> gfault
@@ -22,7 +22,7 @@ package raft
 //@   ensures [C09.clear-log] result0 == nil ==> s.lastLogIndex == s.snaps.index && s.lastLogTerm == s.snaps.term && s.log.gprev == s.snaps.index && s.log.glast == s.snaps.index
 //@   ensures result0 != nil ==> istype(result0, OpError)
 
-//@ func (*storage).getEntryTerm
+//@ func (*storage).getEntryTerm params(s, index)
 //@   requires s.log != nil
 //@   maypanic OpError
 //@   ensures [C04+C09.entry-term] result1 == nil ==> result0 == s.gterm[index]
@@ -36,7 +36,7 @@ package raft
 //@ func (*Raft).onInstallSnapRequest$1
 //@   loop 1 invariant true
 
-//@ func (*Raft).onInstallSnapRequest
+//@ func (*Raft).onInstallSnapRequest params(r, req, c)
 //@   requires NodeInv(r) && c.bufr != nil && r.snaps.used != nil && r.snaps.retain >= 1 && AllBelow(r.snaps) && SnapsInv(r.snaps)
 //@   requires [C10.snapshot-publish] PubInv(r.snaps.dir)
 //@   requires !gfault
@@ -67,19 +67,19 @@ package raft
 
 // log.Open (T-abs view): the recovered log covers (dlogPrev, dlogLast] of that directory and every
 // entry decodes to its own index (C13/C14 give this for the log package)
-//@ view log.Open
+//@ view log.Open params(dir, dirMode, opt)
 //@   ensures result1 != nil ==> result0 == nil
 //@   ensures result1 == nil ==> result0 != nil && isfresh(result0) && result0.gprev == dlogPrev(dir) && result0.glast == dlogLast(dir) && result0.gprev <= result0.glast && forall(i, result0.geidx[i] == i)
-//@ view (*log.Log).Count
+//@ view (*log.Log).Count params(l)
 //@   ensures result0 == l.glast - l.gprev
-//@ view (*log.Log).Close
+//@ view (*log.Log).Close params(l)
 //@   ensures true
 
-//@ func (*value).get
+//@ func (*value).get params(v)
 //@   inline
 
 //@ pure NoCfgIn(s *storage, lo uint64, hi uint64) bool = forall(j, lo < j && j <= hi ==> s.gtyp[j] != entryConfig)
-//@ func openStorage
+//@ func openStorage params(dir, opt)
 // Log.Get(LastIndex) cannot fail when Count() > 0: its error branch is dead defensive code
 //@   dead opError#2 LastIndex#3
 // what done() publishes (C12): a label names its own index, and its membership is not newer than that index
